@@ -100,7 +100,6 @@ func Run(opts *Options) (int, error) {
 		chunkList = NewChunkList(cache, func(item *Item, data []byte) bool {
 			if len(header) < opts.HeaderLines {
 				header = append(header, byteString(data))
-				eventBox.Set(EvtHeader, header)
 				return false
 			}
 			item.text, item.colors = ansiProcessor(data)
@@ -131,7 +130,6 @@ func Run(opts *Options) (int, error) {
 			transformed := nthTransformer(tokens, itemIndex)
 			if len(header) < opts.HeaderLines {
 				header = append(header, transformed)
-				eventBox.Set(EvtHeader, header)
 				return false
 			}
 			item.text, item.colors = ansiProcessor(stringBytes(transformed))
@@ -168,8 +166,21 @@ func Run(opts *Options) (int, error) {
 	streamingFilter := opts.Filter != nil && !sort && !opts.Tac && !opts.Sync && opts.Tail == 0
 	var reader *Reader
 	if !streamingFilter {
+		var headerMutex sync.Mutex
 		reader = NewReader(func(data []byte) bool {
-			return chunkList.Push(data)
+			pushed := chunkList.Push(data)
+			if !pushed {
+				// The line was taken as a header line. The event must not be set by
+				// the item builder, which runs with the chunk list locked: the
+				// coordinator locks the chunk list while it holds the event box.
+				headerMutex.Lock()
+				chunkList.mutex.Lock()
+				current := header
+				chunkList.mutex.Unlock()
+				eventBox.Set(EvtHeader, current)
+				headerMutex.Unlock()
+			}
+			return pushed
 		}, eventBox, executor, opts.ReadZero, opts.Filter == nil)
 
 		readyChan := make(chan bool)
